@@ -20,7 +20,7 @@ CTX = {}
 
 # ------------------------------------------------------------------------------------------------- alphabet
 def _mix(i, p, k):
-    return ((i * 2654435761 + p * 40503 + 12345) >> 7) % k
+    return ce.mix(i, p, k, 1)
 
 
 def make_presets(seed, tier):
@@ -72,6 +72,7 @@ def register_alphabets(pre, tier):
     tlmv = lambda i, p: tv[_mix(i, p, len(tv))]  # noqa: E731
     ce.ALPHABETS["full"] = [mk("R"), mk("C"), mk("L"), mk("Q"), mk("W"), short, opn, tlm]
     ce.ALPHABETS["core"] = [mk("R"), mk("C"), short, opn]
+    ce.ALPHABETS["tri"] = [mk("R"), short, opn]
     ce.ALPHABETS["rand"] = [mk("R"), mk("C"), mk("L"), mk("Q"), mk("W"), short, opn, tlm, tlmv, mk("R"), mk("C")]
     return tv
 
@@ -290,11 +291,11 @@ def make_jobs(a, tv):
         jobs += ce.product_jobs("4-leaves:core", s41, "core")
         s50 = ce.shapes(5, 0)
         s51 = [s for s in ce.shapes(5, 1) if s not in set(s50)]
-        jobs += ce.product_jobs("5-leaves:core", s50, "core")
+        jobs += ce.product_jobs("5-leaves:tri", s50, "tri")
         jobs += ce.sample_jobs("5-leaves:sampled", s50, "full", 40, a.seed + 303)
         jobs += ce.sample_jobs("5-leaves:sampled", s51, "full", 3, a.seed + 404)
         bound_n = ("every topology with <= 3 leaves and <= 2 one-child connections x 8-leaf alphabet, every 4-leaf topology without one-child connections x "
-                   "8-leaf alphabet, every 4-leaf topology with one one-child connection and every 5-leaf topology without x {R,C,short,open}, all exhaustively; "
+                   "8-leaf alphabet, every 4-leaf topology with one one-child connection x {R,C,short,open} and every 5-leaf topology without x {R,short,open}, all exhaustively; "
                    "5-leaf topologies x 8-leaf alphabet sampled (40 resp. 3 per topology)")
     # containers with open / short / nested sub-circuits in small contexts
     r, c0, o, s0 = E("R", {"R": 50.0}), E("C", {"C": 1e-5}), E("R", {"R": INF}), E("R", {"R": 0.0})
@@ -350,8 +351,10 @@ def main(a):
     allf = []
     with mp.get_context("fork").Pool(16) as pool:
         for part, out in pool.imap_unordered(run_job, [jobs[i] for i in random_order]):
-            res.evaluations += out["n"]
-            res.distinct.update(out["digests"])
+            for dg in out["digests"]:
+                res.case(dg, True)
+            for _ in range(out["n"] - len(out["digests"])):
+                res.case(None, False)          # outside the property's quantifier (reference undefined / cannot be simulated)
             p = res.parts.setdefault(part, {"cases": 0})
             p["cases"] += out["n"]
             for k, v in out["counters"].items():
